@@ -224,6 +224,7 @@ class Session:
                     # frame-producing clients return the bytes; segments are fed one per settle
                     for i, piece in enumerate(pieces):
                         if env.client_is_gone or env.server_closed:
+                            self.client.flush_pending()
                             break
                         env.feed(piece)
                         self.client.fed(i, len(piece))
